@@ -318,6 +318,7 @@ class Interp:
         self.ext_consts = {}
         self.const_generic_defaults = {}
         self.assoc_types = {}
+        self.auto_merge = True
 
     # ------------------------------------------------------------------ solver
     def _sync(self, pc):
@@ -1165,7 +1166,29 @@ class Interp:
 
     def invoke(self, name, args, st, tenv, depth=0):
         if not any(m.search(name) for m in self.merge):
-            yield from self.run(name, args, st, tenv, depth)
+            f = self.p.fns[name]
+            if not (self.auto_merge and f.ret in SCALAR_RET and len(f.blocks) <= 60):
+                yield from self.run(name, args, st, tenv, depth)
+                return
+            # small scalar-valued helper: merge its outcomes when it is pure (no write to cells that existed before the call)
+            n0 = len(st.pc)
+            base = st.store
+            outs = list(self.run(name, args, st.fork(), tenv, depth))
+            pure = len(outs) > 1 and all(not is_abnormal(rv) and z3.is_expr(rv) for _, rv in outs) and \
+                all(s_i.store.get(a) is v for s_i, _ in outs for a, v in base.items())
+            if not pure:
+                yield from outs
+                return
+            acc = outs[-1][1]
+            conds = [z3.And(*outs[-1][0].pc[n0:]) if len(outs[-1][0].pc) > n0 else z3.BoolVal(True)]
+            for s_i, rv_i in reversed(outs[:-1]):
+                c = z3.And(*s_i.pc[n0:]) if len(s_i.pc) > n0 else z3.BoolVal(True)
+                conds.append(c)
+                acc = z3.If(c, rv_i, acc)
+            st.pc.append(z3.simplify(z3.Or(*conds)))
+            st.n = max(s_i.n for s_i, _ in outs)
+            self.merged += 1
+            yield st, acc
             return
         # ---- state merging at the return of this function
         n0 = len(st.pc)
@@ -1626,6 +1649,8 @@ class CallCtx:
                 self._skey = c.key
         return self._skey
 
+
+SCALAR_RET = {'bool', 'u8', 'u16', 'u32', 'u64', 'usize', 'i8', 'i16', 'i32', 'i64', 'isize', 'char'}
 
 KNOWN_EXTERNAL = {'serde', 'serde_json', 'serde_smile', 'serde_bytes', 'http', 'bytes', 'base64', 'chrono', 'uuid', 'regex', 'mediatype',
                   'percent_encoding', 'form_urlencoded', 'futures_core', 'futures_util', 'futures', 'ordered_float', 'lazy_static',
